@@ -1,6 +1,11 @@
 package main
 
-import "fmt"
+import (
+	"fmt"
+	"go/constant"
+
+	"golang.org/x/tools/go/ssa"
+)
 
 // C14.R5 — the authorize-endpoint validator (ValidatePrompt). GenerateIDToken
 // repeats these tests (R2), but not all of them for every input: its prompt
@@ -183,5 +188,93 @@ func c14IssueFromStored(c *Ctx) {
 	}
 	if n < 2 {
 		c.RoleUnmatched(rule, "oidc-token-handlers", "explicit and device OIDC token handlers issuing from a stored session")
+	}
+}
+
+// C14.R11 — the stored OpenID Connect request keeps every parameter the
+// ID-token strategy later reads from it. The authorize-endpoint handlers store
+// the request through Sanitize(whitelist); at the token endpoint
+// GenerateIDToken is handed that stored request and reads nonce, max_age,
+// prompt, acr_values and id_token_hint from its form. A key missing from the
+// whitelist silently disables the corresponding clause for every store that
+// serialises the request (no nonce echo, no max_age / prompt / hint check).
+// Reader table: the constant keys GenerateIDToken passes to Form.Get; writer
+// table: the whitelist literal at each CreateOpenIDConnectSession site plus the
+// keys Sanitize always keeps.
+func c14StoredFormKeys(c *Ctx) {
+	const rule, role = "C14.R11", "oidc-session-writer"
+	// readers
+	need := map[string]bool{}
+	for _, g := range c.Impls(pkgOpenID, "OpenIDConnectTokenStrategy", "GenerateIDToken") {
+		var walk func(f *ssa.Function, d int)
+		seen := map[*ssa.Function]bool{}
+		walk = func(f *ssa.Function, d int) {
+			if seen[f] {
+				return
+			}
+			seen[f] = true
+			for _, b := range f.Blocks {
+				for _, ins := range b.Instrs {
+					call, ok := ins.(ssa.CallInstruction)
+					if !ok {
+						continue
+					}
+					cal := call.Common().StaticCallee()
+					if cal == nil {
+						continue
+					}
+					if cal.Name() == "Get" && cal.Signature.Recv() != nil && typeShort(cal.Signature.Recv().Type()) == "url.Values" && len(call.Common().Args) == 2 {
+						if k, ok := call.Common().Args[1].(*ssa.Const); ok && k.Value != nil && k.Value.Kind() == constant.String {
+							need[constant.StringVal(k.Value)] = true
+						}
+					} else if d < 2 && isSubjectPkg(fnPkgPath(cal)) && fnPkgPath(cal) == fnPkgPath(g) {
+						walk(cal, d+1)
+					}
+				}
+			}
+		}
+		walk(g, 0)
+	}
+	if len(need) < 3 {
+		c.RoleUnmatched(rule, "oidc-session-reader", fmt.Sprintf("at least 3 form keys read by GenerateIDToken (found %d)", len(need)))
+		return
+	}
+	always, _ := c.P.GlobalStringSlice("fosite.defaultAllowedParameters")
+	n := 0
+	for _, en := range c.allEntries() {
+		if !c.P.RefsMethod(en.fn, 2, ".CreateOpenIDConnectSession") {
+			continue
+		}
+		ex := c.Explore(en.fn, ExploreConfig{NoArgInline: true, Inline: func(f *ssaFunction) bool {
+			return f.Parent() != nil || c.P.RefsMethod(f, 3, ".CreateOpenIDConnectSession")
+		}}, "oidc-store")
+		if !c.complete(ex, rule, role, en.fn) {
+			continue
+		}
+		ok, m := true, 0
+		why := ""
+		var w *Path
+		for _, p := range ex.Paths {
+			for _, e := range p.Calls(".CreateOpenIDConnectSession") {
+				m++
+				st := e.Arg(2)
+				if !st.IsCall(".Sanitize") || len(st.Args) != 2 || st.Args[1].Op != "lit" {
+					ok, w, why = false, p, "the stored request is "+clip(st.Pretty(), 80)+", not Sanitize(request, <literal whitelist>)"
+					continue
+				}
+				for k := range need {
+					if !litHas(st.Args[1], k) && !hasStr(always, k) {
+						ok, w, why = false, p, fmt.Sprintf("the whitelist at %s drops %q, which GenerateIDToken reads from the stored request", c.P.Pos(e.Instr.Pos()), k)
+					}
+				}
+			}
+		}
+		if m > 0 {
+			n++
+			c.Check(ok, rule, role, en.fn, "whitelist-covers-reader", "the whitelist the OpenID Connect session is stored with keeps every form key GenerateIDToken reads", why, w)
+		}
+	}
+	if n < 2 {
+		c.RoleUnmatched(rule, role, fmt.Sprintf("at least 2 handler functions storing an OpenID Connect session (found %d)", n))
 	}
 }
